@@ -347,7 +347,7 @@ Section L1DOrder.
     assert (G21 : forall y, dget x2 (dset x1 y (d_data t)) = dget x2 (d_data t))
       by (intros; apply dget_dset_other; exact Hne').
     destruct (dget x1 (d_data t)) as [y0|] eqn:G1, (dget x2 (d_data t)) as [y0'|] eqn:G2.
-    - rewrite (tell_d_known t x1 y1 _ G1), (tell_d_known t x2 y2 _ G2). apply (tell_d_known t x1 y1 _ G1).
+    - rewrite (tell_d_known t x1 y1 _ G1), (tell_d_known t x2 y2 _ G2). symmetry. apply (tell_d_known t x1 y1 _ G1).
     - rewrite (tell_d_known t x1 y1 _ G1).
       destruct (in_bounds x2) eqn:B2.
       + rewrite (tell_d_in t x2 y2 _ _ _ _ G2 B2 E2). symmetry. eapply tell_d_known. cbn [d_data]. rewrite G12. reflexivity.
@@ -383,10 +383,10 @@ Section L1DOrder.
   Definition tell1 s (p : num * Y) : st := tell s (fst p) (snd p).
   Definition tell_d1 (t : dst) (p : num * Y) : dst := tell_d t (fst p) (snd p).
 
-  Lemma proj_tells l' : forall s, proj (fold_left tell1 l' s) = fold_left tell_d1 l' (proj s).
+  Lemma proj_tells (ps : list (num * Y)) : forall s, proj (fold_left tell1 ps s) = fold_left tell_d1 ps (proj s).
   Proof.
-    induction l' as [|p l' IH]; intros s; cbn [fold_left]; [reflexivity|].
-    rewrite IH. unfold tell1 at 2. rewrite proj_tell. reflexivity.
+    induction ps as [|p ps IH]; intros s; cbn [fold_left]; [reflexivity|].
+    rewrite IH. unfold tell1, tell_d1. rewrite proj_tell. reflexivity.
   Qed.
 
   (* The data-level components after telling a list of results do not depend
@@ -465,5 +465,144 @@ Section L1DOrder.
     match goal with |- context[if ?c then _ else _] => destruct c end.
     - split; reflexivity.
     - destruct (batch_data_pend s xys) as [B1 B2]. rewrite B1, B2, H1, H2. split; reflexivity.
+  Qed.
+
+  (* ================================================================ *)
+  (* Support for property C13: the data dictionary is kept sorted and
+     duplicate-free by every operation, and telling its items to a fresh
+     learner (either path of tell_many) rebuilds it. *)
+  Notation step := (@L1D.step num add sub mul div ltb eqb zero one inf neg_inf is_nan is_inf round12 of_nat L P).
+  Notation run := (@L1D.run num add sub mul div ltb eqb zero one inf neg_inf is_nan is_inf round12 of_nat L P).
+  Notation init := (@L1D.init num sub zero inf neg_inf P).
+
+  Definition ksorted (ks : list num) : Prop := Sorted.StronglySorted (fun a b => ltb a b = true) ks.
+
+  Lemma dset_keys_In x y d k : In k (map fst (dset x y d)) <-> k = x \/ In k (map fst d).
+  Proof.
+    induction d as [|[k0 u] d IH]; cbn [L1D.dset map fst In]; [intuition|].
+    cmp x k0; subst; ord_rw; cbn [map fst In]; [intuition|intuition|]. rewrite IH. intuition.
+  Qed.
+
+  Lemma dset_sorted x y d : ksorted (map fst d) -> ksorted (map fst (dset x y d)).
+  Proof.
+    unfold ksorted. induction d as [|[k0 u] d IH]; cbn [L1D.dset map fst]; intros H.
+    - repeat constructor.
+    - inversion H as [|? ? Hs Hf]; subst.
+      cmp x k0; subst; ord_rw; cbn [map fst].
+      + constructor; [exact H|]. constructor; [assumption|].
+        rewrite Forall_forall in *. intros z Hz. eapply (ol_trans OL); [eassumption|apply Hf; exact Hz].
+      + constructor; assumption.
+      + constructor; [apply IH; exact Hs|].
+        rewrite Forall_forall in *. intros z Hz. apply dset_keys_In in Hz as [->|Hz]; [assumption|apply Hf; exact Hz].
+  Qed.
+
+  Lemma ksorted_NoDup ks : ksorted ks -> NoDup ks.
+  Proof.
+    unfold ksorted. induction ks as [|k ks IH]; intros H; [constructor|].
+    inversion H as [|? ? Hs Hf]; subst. constructor; [|apply IH; exact Hs].
+    intros Hin. rewrite Forall_forall in Hf. specialize (Hf _ Hin). rewrite (ol_irrefl OL) in Hf. discriminate.
+  Qed.
+
+  Lemma ksorted_app_lt (l1 : list num) x (l2 : list num) :
+    ksorted (l1 ++ x :: l2) -> Forall (fun k => ltb k x = true) l1.
+  Proof.
+    unfold ksorted. induction l1 as [|k l1 IH]; cbn [app]; intros H; [constructor|].
+    inversion H as [|? ? Hs Hf]; subst. constructor; [|apply IH; exact Hs].
+    rewrite Forall_forall in Hf. apply Hf. apply in_or_app. right. left. reflexivity.
+  Qed.
+
+  Lemma dset_append x y d : Forall (fun k => ltb k x = true) (map fst d) -> dset x y d = d ++ [(x, y)].
+  Proof.
+    induction d as [|[k0 u] d IH]; cbn [L1D.dset map fst app]; intros H; [reflexivity|].
+    inversion H as [|? ? Hk Hf]; subst.
+    rewrite (lt_asym _ _ Hk), (eqb_neq x k0); [|apply not_eq_sym; apply lt_neq; exact Hk].
+    rewrite IH by exact Hf. reflexivity.
+  Qed.
+
+  Lemma fold_dset_rebuild (xys : list (num * Y)) : forall acc, ksorted (map fst (acc ++ xys)) ->
+    fold_left dset1 xys acc = acc ++ xys.
+  Proof.
+    induction xys as [|[x y] xys IH]; intros acc H; cbn [fold_left]; [rewrite app_nil_r; reflexivity|].
+    unfold dset1 at 2; cbn [fst snd].
+    rewrite dset_append.
+    - rewrite IH; rewrite <- app_assoc; [reflexivity|exact H].
+    - rewrite map_app in H. cbn [map fst] in H. eapply ksorted_app_lt. exact H.
+  Qed.
+
+  Lemma data_tell s x y : data (tell s x y) = data s \/ data (tell s x y) = dset x y (data s).
+  Proof.
+    change (data (tell s x y)) with (d_data (proj (tell s x y))). rewrite proj_tell. unfold tell_d.
+    cbn [proj d_data d_pend d_nb d_nbc d_bbx d_bby].
+    destruct (dget x (data s)); [left; reflexivity|]. right.
+    destruct (negb (in_bounds x)); [reflexivity|].
+    destruct (scale_of (bbx s) (bby s) x y) as [[[bx bY] sx'] sy']. reflexivity.
+  Qed.
+
+  Lemma data_tell_pending s x : data (tell_pending s x) = data s.
+  Proof.
+    unfold L1D.tell_pending. destruct (dget x (data s)); [reflexivity|].
+    match goal with |- data ?t = _ => change (data t) with (d_data (proj t)) end.
+    rewrite proj_update_losses. reflexivity.
+  Qed.
+
+  Lemma data_fold_tell_pending (xs : list num) : forall s, data (fold_left tell_pending xs s) = data s.
+  Proof.
+    induction xs as [|x xs IH]; intros s; cbn [fold_left]; [reflexivity|]. rewrite IH. apply data_tell_pending.
+  Qed.
+
+  Lemma sorted_fold_tell (xys : list (num * Y)) : forall s, ksorted (map fst (data s)) ->
+    ksorted (map fst (data (fold_left tell1 xys s))).
+  Proof.
+    induction xys as [|[x y] xys IH]; intros s H; cbn [fold_left]; [exact H|].
+    apply IH. unfold tell1; cbn [fst snd].
+    destruct (data_tell s x y) as [E|E]; rewrite E; [exact H|apply dset_sorted; exact H].
+  Qed.
+
+  Lemma sorted_fold_dset (xys : list (num * Y)) : forall d, ksorted (map fst d) ->
+    ksorted (map fst (fold_left dset1 xys d)).
+  Proof.
+    induction xys as [|[x y] xys IH]; intros d H; cbn [fold_left]; [exact H|].
+    apply IH. apply dset_sorted. exact H.
+  Qed.
+
+  Lemma sorted_step s o : ksorted (map fst (data s)) -> ksorted (map fst (data (fst (step s o)))).
+  Proof.
+    intros H. destruct o as [x y|x|xys f| |n c]; cbn [L1D.step fst].
+    - destruct (data_tell s x y) as [E|E]; rewrite E; [exact H|apply dset_sorted; exact H].
+    - rewrite data_tell_pending. exact H.
+    - unfold L1D.tell_many. match goal with |- context[if ?c then _ else _] => destruct c end.
+      + apply (sorted_fold_tell xys s H).
+      + destruct (batch_data_pend s xys) as [B _]. rewrite B. apply sorted_fold_dset. exact H.
+    - exact H.
+    - unfold L1D.ask; cbn [fst]. destruct c; [|exact H]. rewrite data_fold_tell_pending. exact H.
+  Qed.
+
+  Theorem l1d_data_sorted h : forall s, ksorted (map fst (data s)) -> ksorted (map fst (data (run s h))).
+  Proof.
+    induction h as [|o h IH]; intros s H; [exact H|].
+    change (run s (o :: h)) with (run (fst (step s o)) h). apply IH. apply sorted_step. exact H.
+  Qed.
+
+  (* _get_data returns the data dictionary; _set_data tells all its items in
+     one tell_many call (default switch between the two paths) *)
+  Definition l1d_get_data s : list (num * Y) := data s.
+  Definition l1d_set_data s (d : list (num * Y)) : st :=
+    match d with [] => s | _ => tell_many s d false end.
+
+  Lemma set_data_rebuilds (d : list (num * Y)) : ksorted (map fst d) -> data (l1d_set_data init d) = d.
+  Proof.
+    intros H. unfold l1d_set_data. destruct d as [|p d']; [reflexivity|].
+    set (d := p :: d') in *.
+    assert (Hnd : NoDup (map fst d)) by (apply ksorted_NoDup; exact H).
+    assert (Hnew : forall x, In x (map fst d) -> dget x (data init) = None) by (intros; reflexivity).
+    destruct (l1d_batch_data_pend init d false Hnd Hnew) as [E _]. rewrite E.
+    destruct (incr_data_pend d init Hnd Hnew) as [E' _]. rewrite E'.
+    change (data init) with (@nil (num * Y)). apply (fold_dset_rebuild d []). exact H.
+  Qed.
+
+  Theorem l1d_data_roundtrip h :
+    data (l1d_set_data init (l1d_get_data (run init h))) = data (run init h).
+  Proof.
+    apply set_data_rebuilds. apply l1d_data_sorted. constructor.
   Qed.
 End L1DOrder.
